@@ -131,13 +131,17 @@ structure Ctx where
   previous : Option Number := none
   saveAns : Bool := true
   canonFuel : Nat := 4000
+  /-- `Context::temporaries`: scratch names visible only while a substance is being loaded -/
+  temporaries : String → Option Number := fun _ => none
 
 namespace Ctx
 
 /-- `Context::lookup` (temporaries are empty outside a load) -/
 def lookup (c : Ctx) (name : String) : Option Number :=
   if name == "ans" || name == "ANS" || name == "_" then c.previous
-  else c.reg.lookup name
+  else match c.temporaries name with
+    | some v => some v
+    | none => c.reg.lookup name
 
 def canonicalize (c : Ctx) (name : String) : Option String := c.reg.canonicalize c.canonFuel name
 
